@@ -876,6 +876,20 @@ def _assigned_forward(pp, e):
     return f
 
 
+def _skips_inner(expr, left, right):
+    """set of probe characters skipped BETWEEN the two parts of a composite"""
+    out = set()
+    for ch in PROBE_CHARS:
+        try:
+            common.with_alarm(5, expr.parse_string, left + ch + ch + right)
+            out.add(ch)
+        except common.CaseTimeout:
+            out.add("hang:" + ch)
+        except Exception:  # noqa: BLE001
+            pass
+    return out
+
+
 def ws_behaviour_case(chars, in_context):
     """build expressions before / after set_default_whitespace_chars(chars) (optionally inside a context that is
     then left) and observe, by parsing, which probe characters each one skips. Returns list of problems."""
@@ -893,6 +907,14 @@ def ws_behaviour_case(chars, in_context):
               ("Group(Forward)", lambda: pp.Group(_assigned_forward(pp, pp.Word("ab"))), "ab"),
               ("Suppress(Forward)+Empty", lambda: pp.Suppress(_assigned_forward(pp, pp.Literal("ab"))) + pp.Empty(), "ab")]
         pre = [(n, f(), body) for n, f, body in mk]
+        # composites: the whitespace BETWEEN their parts (every part of a copy is an expression created afterwards)
+        mk2 = [("And", lambda: pp.Literal("a") + pp.Literal("b")), ("And of Words", lambda: pp.Word("a") + pp.Word("b")),
+               ("MatchFirst over And", lambda: (pp.Literal("a") + pp.Literal("b")) | pp.Literal("zz")),
+               ("Or over And", lambda: (pp.Literal("a") + pp.Literal("b")) ^ pp.Literal("zz")),
+               # (Each is left out: a copy of a USED Each keeps the original's cached expression groups - registered under
+               #  C12 as each_copy_keeps_cached_groups)
+               ("And over Group", lambda: pp.Group(pp.Literal("a")) + pp.Group(pp.Literal("b")))]
+        pre2 = [(n, f()) for n, f in mk2]
         # expressions that currently do not skip at all; they still follow the default (copyDefaultWhiteChars)
         tight = [(n + ".leave_whitespace()", f().leave_whitespace(), body) for n, f, body in mk]
         own = pp.Word("ab").set_whitespace_chars("-")
@@ -915,6 +937,20 @@ def ws_behaviour_case(chars, in_context):
             expect("pre-existing " + n, e, body, before, "existing-user-expression-changed")
             expect("copy of pre-existing " + n, e.copy(), body, inside, "copy-does-not-follow-default")
             expect("pre-existing " + n + "('name')", e("name"), body, inside, "copy-does-not-follow-default")
+        def expect_inner(name, expr, want, clause):
+            got = _skips_inner(expr, "a", "b")
+            if got != want:
+                probs.append({"atom": f"ws-behaviour:{clause}", "at": name + " (between its parts)", "expected": sorted(want),
+                              "actual": sorted(got), "theorem": "default_ws_scope_partial (behaviour, oracle only)"})
+
+        for n, e in pre2:
+            expect_inner("pre-existing " + n, e, before, "existing-user-expression-changed")
+            for how, cpy in (("copy()", e.copy()), ("expr()", e()), ("expr('name')", e("name")),
+                             ("set_results_name('name')", e.set_results_name("name"))):
+                expect_inner(f"{how} of pre-existing {n}", cpy, inside, "copy-does-not-follow-default")
+            expect_inner("pre-existing " + n + " (after copies)", e, before, "existing-user-expression-changed")
+        for n, f in mk2:
+            expect_inner("new " + n, f(), inside, "new-expression-does-not-follow-default")
         for n, e, body in tight:
             expect("pre-existing " + n, e, body, set(), "existing-user-expression-changed")
             expect("copy of pre-existing " + n, e.copy(), body, set(), "copy-of-leave_whitespace-skips")
@@ -940,6 +976,9 @@ def ws_behaviour_case(chars, in_context):
                 expect("builtin after exit " + n, e, body, before, "builtin-after-exit")
             for n, e, body in pre:
                 expect("pre-existing after exit " + n, e, body, before, "existing-user-expression-changed")
+            for n, e in pre2:
+                expect_inner("pre-existing after exit " + n, e, before, "existing-user-expression-changed")
+                expect_inner("copy after exit of pre-existing " + n, e.copy(), before, "copy-after-exit-does-not-follow-entry-default")
             for where, lst in (("before", tight), ("inside", inner_tight)):
                 for n, e, body in lst:
                     expect(f"after exit: {n} built {where} the context", e, body, set(), "existing-user-expression-changed")
